@@ -4,7 +4,7 @@ import importlib
 import re
 
 from . import ser_sdl
-from .sdl_impl import _resolver, exc_obs, unjpv
+from .sdl_impl import _resolver, exc_obs, unjpv  # noqa: F401
 
 _CAMEL = re.compile(r"(?<!^)(?=[A-Z])")
 
@@ -20,6 +20,8 @@ def py_of_lit(j, t, ctx):
     k = j["k"]
     if k == "null":
         return None
+    if k == "py":            # a Python value given as such (code-built only)
+        return unjpv(j["v"])
     if not isinstance(t, str):
         if "nn" in t:
             return py_of_lit(j, t["nn"], ctx)
@@ -48,7 +50,7 @@ def py_of_lit(j, t, ctx):
     raise TypeError((k, t))
 
 
-def code_schema(spec, pynames=True, internal=True):
+def code_schema(spec, pynames=True, internal=True, shared=None):
     """the spec of gen_sdl built with the Python API"""
     from py_gql import schema as S
     from py_gql.schema.scalars import default_scalar
@@ -97,7 +99,13 @@ def code_schema(spec, pynames=True, internal=True):
     for t in spec["types"]:
         k, n = t["kind"], t["name"]
         if k == "scalar":
-            built[n] = default_scalar(n, description=desc(t["desc"]))
+            if shared is not None:
+                # the same ScalarType *object* in every schema of the case
+                if n not in shared:
+                    shared[n] = default_scalar(n, description=desc(t["desc"]))
+                built[n] = shared[n]
+            else:
+                built[n] = default_scalar(n, description=desc(t["desc"]))
         elif k == "enum":
             built[n] = S.EnumType(n, [S.EnumValue(v["name"], ctx["enums"][n][v["name"]], description=desc(v["desc"]),
                                                   deprecation_reason=dep(v["dep"])) for v in t["values"]],
@@ -127,11 +135,12 @@ def code_schema(spec, pynames=True, internal=True):
                     types=list(built.values()), directives=directives)
 
 
-def make_schema(src):
+def make_schema(src, shared=None):
     from py_gql import build_schema
     if "sdl" in src:
         return build_schema(src["sdl"], ignore_extensions=bool(src.get("ignore_extensions")))
-    s = code_schema(src["code"], src.get("pynames", True), src.get("internal", True))
+    s = code_schema(src["code"], src.get("pynames", True), src.get("internal", True),
+                    shared if src.get("share") else None)
     s.validate()
     return s
 
@@ -280,9 +289,10 @@ def do_c12(case):
     if case.get("reset", True):
         reset_printer_state()
     schemas, dumps, sdl_built = [], [], []
+    shared = {}
     for src in case["schemas"]:
         try:
-            s = make_schema(src)
+            s = make_schema(src, shared)
         except BaseException as e:  # noqa
             return {"harness_error": "schema source does not build: %r" % (e,)}
         schemas.append(s)
